@@ -4,7 +4,7 @@ use crate::{
     model::{TryFromNode, field::resolve_type},
     reader::WriteXml,
 };
-use inflector::cases::snakecase::to_snake_case;
+use inflector::cases::{pascalcase::to_pascal_case, snakecase::to_snake_case};
 use reqwest::Url;
 use std::{io, rc::Rc};
 
@@ -62,14 +62,15 @@ where
 {
     fn write_xml(&self, writer: &mut W) -> WriterResult<()> {
         // create a wrapping Rust struct for the service
-        writeln!(writer, "pub struct {} {{", self.name)?;
+        let service_name = to_pascal_case(&self.name);
+        writeln!(writer, "pub struct {service_name} {{")?;
         writeln!(writer, "    pub client: reqwest::Client,")?;
         writeln!(writer, "    pub location: String,")?;
         writeln!(writer, "    pub credentials: Option<(String, String)>,")?;
         writeln!(writer, "}}")?;
 
         // create an implementation for the service
-        writeln!(writer, "impl {} {{", self.name)?;
+        writeln!(writer, "impl {service_name} {{")?;
         writeln!(
             writer,
             "    pub fn new(credentials: Option<(String, String)>) -> Self {{"
@@ -98,6 +99,8 @@ where
 {
     // generate an async fn for the operation
     let rust_fn_name = to_snake_case(operation_name);
+    // the envelopes are emitted under the PascalCase form of the operation name
+    let operation_name = to_pascal_case(operation_name);
     let request_name = format!("{operation_name}InputEnvelope");
     let response_name = operation
         .output
